@@ -71,6 +71,8 @@ class Ctx:
 
     # -- model
     def coq_eval(self, name, requires, cases, prelude="", shard=300, timeout=300):
+        if self.tier == "thorough":
+            timeout = max(timeout, 1500)
         return coqrun.eval_cases(self.workdir, name, requires, cases, prelude, shard, timeout)
 
 
